@@ -6,6 +6,7 @@ R = {
  "C07-g": (7, False, "C07 T9-orbifold-key (the generator's key is cones . (* iff !is_loopless) . corners . (x iff !weakly oriented), lists descending, degrees filed by fixed-point / chain tests)", "positive curvature on a D-set with a mirror but no corner: orbifolds 2*, 3*, 4* (2 of 498 D-sets up to size 8)"),
  "C12-g": (7, False, "C12 T3-no-empty-relator made exact: the guard is evaluated for lengths 0, 1, 2, 5 and must let through exactly the non-empty relators (same for C13 T3-every-relator-filed)", "a presentation with a one-letter relator, e.g. <a, b | a, b^3>"),
  "C13-g": (7, True, "", "stabilizer(base_point != 0) on a table with more than one row"),
+ "C08-g": (7, False, "C08 T9-symbol-parts (the cone part is printed from the list cone_degrees(ds) itself, only sorted and reversed; `*` + corner list per component of trace_boundary)", "two or more cone points of the same degree: 442 is printed as 42, 2222 as 2, 333 as 3"),
  "C19-g": (7, True, "", "undirected edge cut with source label > sink label; inside_vertices is then the sink's side"),
 }
 for sid, (rnd, first, strength, needs) in R.items():
